@@ -40,4 +40,9 @@ def _c20():
     return {"builders": [pk.build], "level": "other", "explanation": "cursor coordinate lemmas"}
 
 
-PROPS = {"C20": _c20}
+def _c01():
+    import parser as pk
+    return {"builders": [pk.build], "level": "other", "explanation": "lexer/cursor kernel"}
+
+
+PROPS = {"C20": _c20, "C01": _c01}
